@@ -7,8 +7,10 @@ urdf_utils.self_collision_whitelists) on top of the C05 tree model.
 Tie to the code, on every run, for generated robots (URDF chains / trees loaded by pytransform3d's
 UrdfTransformManager with sphere / box / cylinder collision objects, plus capsule / cone / mesh / ...
 colliders registered through add_collider) and command histories (fill_tree_with_colliders,
-add_collider, set_joint, add_transform, whitelist changes, update_collider_poses, interleaved with the
-three broad-phase queries, detect, detect_any and state dumps):
+add_collider (also under a frame name that is in use = REPLACEMENT of the registered object, and after a
+collider was taken out of the public dict = removal + re-adding / swapping), set_joint, add_transform, whitelist
+changes, update_collider_poses, interleaved with the three broad-phase queries, detect, detect_any and state dumps;
+every returned collider is identified as an OBJECT (number in creation order), not by its frame name):
 
   * property oracle (Python, independent of the model): all-pairs brute force over the AABBs of NEW
     colliders built at the poses the registered colliders have (closed-interval overlap) and over an
@@ -31,7 +33,7 @@ from .c14 import gen_mesh, quat_to_rot
 PID = "C06"
 PROOF_FILES = ["theories/Props/C06.v", "theories/Proofs/BvhDict.v", "theories/Proofs/BvhProofs.v",
                "theories/Proofs/BvhDetect.v", "theories/Proofs/BvhWhitelists.v", "theories/Proofs/BvhColliders.v",
-               "theories/Proofs/BvhNoAssert.v", "theories/Proofs/BvhReal.v"]
+               "theories/Proofs/BvhNoAssert.v", "theories/Proofs/BvhReal.v", "theories/Proofs/BvhIdentity.v"]
 
 HEADER = """From Coq Require Import List ZArith PrimFloat.
 From D3 Require Import Model.AabbTree Model.AabbTreeRun Model.Bvh Model.BvhRun.
@@ -250,12 +252,56 @@ def gen_world(rng, tier, stream):
             cmds.append(dict(op="set_wl", wl=wl, replace=(not only_missing and rng.random() < 0.5)))
             have_wl = True
 
+    def spare():
+        """geometry + own frame for a collider that replaces another one (new tool) or is swapped in"""
+        kind, params = gen_geom(rng, ["capsule", "cone", "mesh", "sphere", "box", "cylinder"])
+        if rng.random() < 0.4:          # a bigger tool: reaches its neighbours
+            sc = rng.uniform(1.5, 3.0)
+            params = {k: (v if k == "triangles" else [x * sc for x in v] if isinstance(v, list) else v * sc)
+                      for k, v in params.items()}
+        extras.append(dict(frame=f"s{len(extras)}", parent=rng.choice(parents), T=gen_pose(rng, 0.6),
+                           kind=kind, params=params, pose0=gen_pose(rng, 0.6), spare=True))
+        return len(extras) - 1
+
+    def tool_change():
+        """replace / take out / swap registered colliders: the dict changes, the tree keeps the old leaves until the
+        next update_collider_poses (which follows in the same round)"""
+        targets = [f for f in frames if not f.endswith("_alias") and f != "floating"]
+        for f in rng.sample(targets, min(len(targets), rng.choice([1, 1, 2, 3]))):
+            kind = rng.choice(["replace", "replace", "replace", "remove_readd", "remove_readd", "swap", "remove"])
+            if kind == "replace":            # add_collider under a name in use: same number of colliders
+                cmds.append(dict(op="add", extra=spare(), frame=f, no_tm=True, replace=True))
+            elif kind == "remove_readd":
+                cmds.append(dict(op="remove", frame=f))
+                if rng.random() < 0.25:
+                    cmds.extend(observe(0.8))
+                if rng.random() < 0.3:      # the same tool is put on again
+                    cmds.append(dict(op="add", extra=0, frame=f, no_tm=True, replace=True, same=True))
+                else:
+                    cmds.append(dict(op="add", extra=spare(), frame=f, no_tm=True, replace=True))
+            elif kind == "swap":             # one out, another one (own frame) in: same number of colliders
+                cmds.append(dict(op="remove", frame=f))
+                frames.remove(f)
+                k = spare()
+                cmds.append(dict(op="add", extra=k))
+                frames.append(extras[k]["frame"])
+                maybe_wl(force=True)
+            elif len(frames) > 1:
+                cmds.append(dict(op="remove", frame=f))
+                frames.remove(f)
+        if rng.random() < 0.25:
+            cmds.extend(observe(0.8))      # dict and tree disagree until the update: correspondence only
+
     if not have_wl:
         maybe_wl(force=rng.random() < 0.85)
     if first and rng.random() < 0.3:
         cmds += observe(0.3)       # before any update: extras sit at their construction pose
     rounds = rng.randint(1, 3 if tier == "quick" else 5)
     for r in range(rounds):
+        change = bool(frames) and rng.random() < 0.4
+        if change and r == 0 and rng.random() < 0.7:
+            cmds.append(dict(op="update"))          # the BVH is in use before the first tool change
+            cmds += observe(0.8)
         for j in movable:
             if rng.random() < 0.7:
                 lo, hi = (j["lower"], j["upper"]) if j["type"] != "continuous" else (-math.pi, math.pi)
@@ -270,9 +316,11 @@ def gen_world(rng, tier, stream):
             cmds.append(dict(op="add", extra=k))
             frames.append(extras[k]["frame"])
             maybe_wl(force=True)
+        if change:
+            tool_change()
         if stream == "beyond" and rng.random() < 0.5:
             kind = rng.choice(["dup", "alias", "no_tm", "stale", "refill"])
-            done = [c["extra"] for c in cmds if c["op"] == "add" and "reuse" not in c]
+            done = [c["extra"] for c in cmds if c["op"] == "add" and "reuse" not in c and "frame" not in c]
             if kind == "dup" and done:
                 k = rng.choice(done)
                 cmds.append(dict(op="add", extra=rng.randrange(len(extras)), frame=extras[k]["frame"], no_tm=True))
@@ -366,6 +414,9 @@ def world_to_coq(wres, off, fr):
         cmds.append(c)
         exp.append((len(cmds) - 1, expected, k))
 
+    def cmd_frame(rec, k):
+        return rec["frame"] if "frame" in rec else rec["_frame"]
+
     def add_narrow(snap):
         nonlocal unstable
         objs = snap["narrow_objs"]
@@ -394,6 +445,8 @@ def world_to_coq(wres, off, fr):
                 truncated = True
                 break
             push(f"CAdd {fr(rec['frame'])} {rec['oid']}", code or [0], k)
+        elif op == "remove":
+            push(f"CRemove {fr(cmd_frame(rec, k))}", code or [0], k)
         elif op in ("set_joint", "move"):
             if code:
                 truncated = True
@@ -451,6 +504,8 @@ def case_to_coq(case, res):
                 rec["_whitelist"] = cmd.get("whitelist", [])
             if rec["op"] == "set_wl":
                 rec["_wl"], rec["_replace"] = cmd["wl"], cmd.get("replace", False)
+            if rec["op"] == "remove":
+                rec["_frame"] = cmd["frame"]
         heap, at, nt, cmds, exp, unstable, truncated = world_to_coq(wres, off, fr)
         AT += at
         NT += nt
@@ -512,23 +567,34 @@ def judge_world(wcase, wres, stats):
     objs = wres["objects"]
     inv_ok, tm_dirty, seen_ids = True, False, {}
     frames_seen = set()
+    changed = set()         # frames whose registered object was replaced (add_collider under a name in use / re-added)
+    tool_changes = 0        # removals
     seen_here = {}          # detect / detect_any answers since the last state change
     for k, (cmd, rec) in enumerate(zip(wcase["cmds"], wres["cmds"])):
         op = rec["op"]
-        if op in ("fill", "add", "update", "set_joint", "move", "set_wl"):
+        if op in ("fill", "add", "update", "set_joint", "move", "set_wl", "remove"):
             seen_here = {}
-        if rec["exc"] and op in ("fill", "add", "update", "set_joint", "move"):
+        if rec["exc"] and op in ("fill", "add", "update", "set_joint", "move", "remove"):
             if inv_ok and not (op in ("update", "fill") and rec["exc"] == "KeyError" and tm_dirty is None):
                 fails.append(f"cmd {k} ({op}) raised {rec['exc']}: {rec.get('msg', '')[:80]}")
             break
         if op == "add":
             f = rec["frame"]
             if f in frames_seen or "reuse" in cmd:
-                inv_ok = False          # duplicate frame name / aliased object: outside the property
-            if cmd.get("no_tm"):
+                inv_ok = False          # frame name in use (the replaced object stays in the tree until the next
+                #                         update_collider_poses) / aliased object: judged again after the update
+            if f in frames_seen or cmd.get("replace"):
+                changed.add(f)
+            if cmd.get("no_tm") and not cmd.get("replace"):
                 inv_ok = False
                 tm_dirty = None         # frame unknown to the transform manager: update will raise
             frames_seen.add(f)
+            if tm_dirty is not None:
+                tm_dirty = True
+        elif op == "remove":
+            frames_seen.discard(cmd["frame"])
+            inv_ok = False              # the removed object's leaf stays in the tree until the next update
+            tool_changes += 1
             if tm_dirty is not None:
                 tm_dirty = True
         elif op in ("set_joint", "move"):
@@ -575,12 +641,23 @@ def judge_world(wcase, wres, stats):
         stats["empty_bvh"] += not ent
         if rec["exc"]:
             continue
+        if (changed or tool_changes) and op in ("query", "self", "detect", "detect_any"):
+            stats["judged_after_replacement_or_removal"] += 1
+        if op in ("detect", "detect_any"):
+            # detect's broad-phase calls must hand out registered objects only (identity, not frame name)
+            reg = set(ids.values())
+            alien = sorted({o for pr in rec.get("narrow_calls", []) for o in pr if o not in reg})
+            if alien:
+                fails.append(f"cmd {k}: {op}: aabb_overlapping_colliders handed collider object(s) #{alien[:4]} to the "
+                             f"narrow phase that are not registered in colliders_ (replaced or removed earlier)")
+            stats["narrow_calls_identified"] += len(rec.get("narrow_calls", []))
         if op == "query":
             want = sorted((f, ids[f]) for f in ids if overlap(box[f], rec["q_aabb"]) and f not in cmd.get("whitelist", []))
             got = sorted((f, i) for f, i in rec["r"])
             if got != want or len({f for f, _ in rec["r"]}) != len(rec["r"]):
                 fails.append(f"cmd {k}: aabb_overlapping_colliders returned {got[:5]}, brute force {want[:5]}")
             stats["query"] += 1
+            stats["query_returned_replaced_frame"] += any(f in changed for f, _ in want)
             stats["query_nonempty"] += bool(want) and len(want) < len(ids)
             stats["query_whitelist_removed_something"] += any(
                 overlap(box[f], rec["q_aabb"]) for f in ids if f in cmd.get("whitelist", []))
@@ -721,7 +798,8 @@ def new_stats():
     return dict(snapshots=0, query=0, query_nonempty=0, self=0, self_nonempty=0, cross=0, cross_nonempty=0,
                 detect=0, detect_mixed=0, detect_partner_only=0, detect_continue_taken=0, detect_any=0,
                 detect_any_true=0, empty_bvh=0, query_whitelist_removed_something=0,
-                narrow_raised=0, narrow_without_aabb_overlap=0)
+                narrow_raised=0, narrow_without_aabb_overlap=0, judged_after_replacement_or_removal=0,
+                query_returned_replaced_frame=0, narrow_calls_identified=0)
 
 
 def run(tier, seed, replay=None):
@@ -731,6 +809,11 @@ def run(tier, seed, replay=None):
         "link, 20% also with visual objects, then loaded with use_visuals=True in 60% of those, revolute/prismatic/continuous/fixed joints) loaded by UrdfTransformManager, or a plain TransformManager, "
         "plus 0-7 capsule/cone/mesh/sphere/box/cylinder colliders registered with add_collider (built away from their "
         "frame's transform); history = fill_tree_with_colliders (with/without generated whitelists), add_collider, "
+        "TOOL CHANGES in 40% of the rounds (1-3 registered frames each: add_collider under a frame name in use = the object "
+        "is replaced and the number of colliders stays the same; del colliders_[f] followed by add_collider of a new or of the "
+        "same object under f; one collider out and another one under its own frame in; plain removal; usually after the BVH "
+        "has been queried and with no query between the change and the next update_collider_poses, in 25% with queries on the "
+        "stale tree), every returned collider identified as an object (also the objects detect hands to the narrow phase), "
         "hand-made (asymmetric, partial, replacing) whitelists, 1-5 rounds of random set_joint (incl. limits) / "
         "add_transform (fresh array, or the array handed over earlier edited IN PLACE and added again; frames hanging directly "
         "below 'origin' hand that very array to the colliders) followed by update_collider_poses; links / joints declared in "
